@@ -8,6 +8,9 @@ rnd, letter = sys.argv[1], sys.argv[2]
 ids = sys.argv[3:] or [f"C{k:02d}" for k in range(1, 21)]
 props = {json.loads(line)["id"]: json.loads(line) for line in open("/verif/properties.jsonl")}
 tmpl = open("/verif/tools/prompts/seed_prompt.txt").read()
+EXTRA = os.environ.get("SEED_EXTRA")
+if EXTRA:
+    tmpl = tmpl[: tmpl.index("Extra guidance for this round:")] + "Extra guidance for this round: " + EXTRA + "\n"
 os.makedirs("/tmp/wt", exist_ok=True)
 for pid in ids:
     p = props[pid]
